@@ -245,11 +245,22 @@ def run_execs(ctx, execs, name, variant="mix", nproc=14, per_process=None):
     return out, aborts
 
 
+def note_labels(ctx, labels):
+    """Design-conformance labels of the monitors (state machine of SessionStates.tla): counts go to the evidence;
+    they are never a verdict.  An execution family in which no recorded call conforms means the binding is broken."""
+    d = ctx.extra.setdefault("design_labels", {})
+    for k, n in labels.items():
+        d[k] = d.get(k, 0) + n
+    if labels and not any(k == "state_machine:step_conforms" for k in labels):
+        raise core.Infra("no recorded call conforms to the session state machine: SessionStates.tla is not bound to the traces")
+
+
 def judge(ctx, execs, traces, aborts, name, chunks=12):
     done = [(i, t) for i, t in enumerate(traces) if t]
     fails, labels, info = tlc.validate_execs("T_Session.tla", "T_Session.cfg", [t for _, t in done], ctx.workdir, name,
                                              chunks=chunks)
     ctx.add_validation(info, len(done))
+    note_labels(ctx, labels)
     for i, t in done:
         ctx.case(execs[i].abstract + [execs[i].cfg], nontrivial=len(t) > 3)
     seen = set()
